@@ -241,6 +241,25 @@ func runC16(r *core.Run) {
 			headers = append(headers, h)
 		}
 	}
+	// signatures that are almost 'acsp'
+	for _, sig := range []string{"ACSP", "Acsp", "acsP", "aCSP", "acsp ", " acs", "pcsa", "acs\x00", "\x00csp", "scsp", "acsq"} {
+		h := base(2)
+		copy(h[36:40], (sig + "    ")[:4])
+		headers = append(headers, h)
+	}
+	// every calendar day of some leap and non-leap years
+	for _, year := range []int{1600, 1900, 2000, 2023, 2024, 2100, 2400} {
+		for month := 1; month <= 12; month++ {
+			for day := 1; day <= 31; day++ {
+				h := base(0)
+				put16(h, 24, year)
+				put16(h, 26, month)
+				put16(h, 28, day)
+				put16(h, 30, 12)
+				headers = append(headers, h)
+			}
+		}
+	}
 	nrand := 100000
 	if r.Thorough() {
 		nrand = 10000000
